@@ -347,8 +347,9 @@ def read_decode1090(repo):
                             DEC_HEAD, DEC_LOOP_END, DEC_TAIL, DEC_BODY, "json", "options.deduplication")
     m = DEC_OPTION.search(_norm(_block(src, "struct Options", "decode1090/main.rs")))
     if not m:
-        raise ExtractError("decode1090/main.rs: option `deduplication: u128` (default in ms) no longer matches")
-    facts["defaultWindow"] = int(m.group("default"))
+        raise ExtractError("decode1090/main.rs: option `deduplication: u128` (ms, added to `timestamp_ms` without a "
+                           "cast) no longer matches")
+    # (the default value itself is not part of the model: the window is a parameter of every theorem)
     # process_entries: head and tail verbatim, in between one brace-balanced `match &mut message.df { … }`
     pe = _norm(_block(src, "async fn process_entries(", "decode1090/main.rs"))
     h, t = _norm(PE_HEAD), _norm(PE_TAIL)
@@ -426,9 +427,7 @@ def gen_dedup(repo):
         "  insertBeforeExpire : Bool\n  pushOnlyOnFirst : Bool\n  flushAtEof : Bool\n"
         "  deriving DecidableEq, Repr\n\n")
     jt, jl = _copy_lean("Jet", "dedup.rs", jf, jg)
-    extra = ("/-- `#[arg(long, short, default_value = \"…\")] deduplication: u128` (ms; added without a cast) -/\n"
-             f"def defaultWindow : Nat := {df['defaultWindow']}\n")
-    dt, dl = _copy_lean("Decode1090", "decode1090/main.rs", df, dg, extra)
+    dt, dl = _copy_lean("Decode1090", "decode1090/main.rs", df, dg)
     out += [jt, dt]
     out.append(f"/-- jet1090's `deduplicate_messages` -/\ndef jet : Loop :=\n  {jl}\n\n")
     out.append(f"/-- decode1090's inline copy -/\ndef decode1090 : Loop :=\n  {dl}\n")
